@@ -23,7 +23,7 @@ const (
 	{{- range $Consts}}
 	{{InsertionPoint "constant" .Name}}
 	{{- if and Features.ReserveComments .ReservedComments}}{{.ReservedComments}}{{end}}
-	{{.GoName}} = {{.Initialization}}
+	{{.GoName}}{{.DeclaredType}} = {{.Initialization}}
 	{{- end}}{{/* range $Consts */}}
 	{{InsertionPoint "constants"}}
 )
@@ -35,7 +35,7 @@ var (
 	{{- range $NonConsts }}
 	{{InsertionPoint "constant" .Name }}
 	{{- if and Features.ReserveComments .ReservedComments}}{{.ReservedComments}}{{end}}
-	{{.GoName}} = {{.Initialization}}
+	{{.GoName}}{{.DeclaredType}} = {{.Initialization}}
 	{{- end}}
 	{{InsertionPoint "variables"}}
 )
